@@ -39,7 +39,7 @@ def norm(label):
     return re.sub(r'[ \t\r\n]+', ' ', label.strip(' \t\r\n')).casefold()
 
 
-USE_TEXT = 'a [{l}] b [{l}][] c [t][{l}] d ![{l}] e ![i][{l}] f'
+USE_TEXT = 'a [{l}] b [{l}][] c [t][{l}] d ![{l}] e ![i][{l}] f [{l}][zz] g'
 
 
 def use_text(labels):
@@ -53,6 +53,7 @@ def model_uses(labels, table):
         hit = table.get(norm(l))
         for kind in ('a', 'a', 'a', 'img', 'img'):
             out.append((kind,) + hit if hit else None)
+        out.append(None)        # [l][zz]: full reference to an undefined label stays literal even if l itself is defined
     return out
 
 
@@ -150,8 +151,12 @@ def evaluate(md, use_labels, nuse_blocks, defs):
             lit = html.escape(USE_TEXT.format(l=l), quote=False)
             if text.count(lit) != nuse_blocks:
                 return dict(sig='unresolved-use-not-literal', expected=lit, observed=out)
-    if ']:' in text or '/d' in text:
+    if ']:' in text or '/d' in text or re.search(r'T\d', text):
         return dict(sig='definition-text-in-output', observed=out)
+    for l in use_labels:
+        lit = html.escape('f [%s][zz] g' % l, quote=False)
+        if text.count(lit) < nuse_blocks:
+            return dict(sig='full-reference-to-undefined-label-not-literal', expected=lit, observed=out)
     want_foot = {k: (html.unescape(d).replace('%20', ' '), t) for k, (d, t) in table.items()}
     if {k: (v[0], v[1]) for k, v in foot.items()} != want_foot:
         return dict(sig='footnotes-table-differs', expected=want_foot, observed=foot)
